@@ -153,7 +153,7 @@ def run_case(case):
 
 def plan(tier):
     if tier == "quick":
-        return [{"part": "delta", "shards": 16, "budget": {"n_examples": 1500}}]
+        return [{"part": "delta", "shards": 16, "budget": {"n_examples": 3500}}]
     return [{"part": "delta", "shards": 16, "budget": {"n_examples": 40000}}]
 
 
